@@ -33,6 +33,10 @@ type Case struct {
 	PaceB  []int         `json:"pace_b_ms"`
 	ModemA bool          `json:"modem_a"`
 	ModemB bool          `json:"modem_b"`
+	// part of the written bytes the modem reports as still queued, in quarters (0 = 2 = half; 4 = nothing
+	// leaves the modem before Flush, so the queue always exceeds the message bytes handed over so far)
+	QueueA int `json:"queue_a_quarters,omitempty"`
+	QueueB int `json:"queue_b_quarters,omitempty"`
 }
 
 type rec struct {
@@ -84,7 +88,12 @@ func run(c Case) (sig, msg string, nonFinal int) {
 		},
 		Conn: func(side string, e *stream.End) net.Conn {
 			if (side == "A" && c.ModemA) || (side == "B" && c.ModemB) {
-				return stream.NewModem(e)
+				m := stream.NewModem(e)
+				m.Quarters = c.QueueA
+				if side == "B" {
+					m.Quarters = c.QueueB
+				}
+				return m
 			}
 			return e
 		},
@@ -245,7 +254,8 @@ func genCase(t *rapid.T) Case {
 			return l
 		}
 	}
-	return Case{Sc: sc, PaceA: pace("paceA"), PaceB: pace("paceB"), ModemA: rapid.Bool().Draw(t, "modemA"), ModemB: rapid.Bool().Draw(t, "modemB")}
+	return Case{Sc: sc, PaceA: pace("paceA"), PaceB: pace("paceB"), ModemA: rapid.Bool().Draw(t, "modemA"), ModemB: rapid.Bool().Draw(t, "modemB"),
+		QueueA: rapid.SampledFrom([]int{1, 2, 4, 4}).Draw(t, "queueA"), QueueB: rapid.SampledFrom([]int{1, 2, 4, 4}).Draw(t, "queueB")}
 }
 
 // bound the total sleeping of a case (writes are ~ size/125 per message)
@@ -293,6 +303,12 @@ func TestProp(t *testing.T) {
 		}
 		if c.ModemA || c.ModemB {
 			harness.Label("txbuffer-transport")
+		}
+		if (c.ModemA && c.QueueA == 4 && len(c.Sc.A.Queue) > 0) || (c.ModemB && c.QueueB == 4 && len(c.Sc.B.Queue) > 0) {
+			harness.Label("txbuffer-holds-everything-until-flush(sender)")
+			if nonFinal > 0 {
+				harness.Label("txbuffer-holds-everything-until-flush(sender)+non-final-report")
+			}
 		}
 		if len(c.PaceA)+len(c.PaceB) > 0 {
 			harness.Label("paced")
